@@ -490,20 +490,22 @@ theorem rcore_phase {fx d R G} (s : S) (p : Phase) (hot) (h : RCore fx d R G s h
 /-! ### the cache book-keeping on top of the scheduler invariant -/
 
 /-- `H i`: node `i` had completed before the cut (`G ⊆ H`; `H ∖ G` = completed, but some input
-upstream of it — or its own — was changed when the cause was removed) -/
-structure RBook (fx : Fix) (d : Dag) (G H : Nat → Bool) (rs : RS) : Prop where
+upstream of it — or its own — was changed when the cause was removed); `T i`: child `i` is a
+composite (comes back from the file without a cache of its own, so it is always run again) -/
+structure RBook (fx : Fix) (d : Dag) (G H T : Nat → Bool) (rs : RS) : Prop where
   fc0    : ∀ i, rs.s.st i = .idle → rs.fcalls i = 0
-  fcG    : ∀ i, G i = true → rs.fcalls i = 0
+  fcG    : ∀ i, G i = true → T i = false → rs.fcalls i = 0
   fcN    : ∀ i, H i = false → rs.s.st i ≠ .idle → rs.fcalls i = 1
   fcD    : ∀ i, fx.dirty i = true → rs.s.st i ≠ .idle → rs.fcalls i = 1
+  fcT    : ∀ i, T i = true → rs.s.st i ≠ .idle → rs.fcalls i = 1
   fcLe   : ∀ i, rs.fcalls i ≤ 1
-  cacheG : ∀ i, rs.s.st i = .idle → G i = true → rs.cache i = some (fetchArgs d rs.s.out i)
-  cacheN : ∀ i, rs.s.st i = .idle → H i = false → rs.cache i = none
+  cacheG : ∀ i, rs.s.st i = .idle → G i = true → T i = false → rs.cache i = some (fetchArgs d rs.s.out i)
+  cacheN : ∀ i, rs.s.st i = .idle → (H i = false ∨ T i = true) → rs.cache i = none
   cacheU : ∀ i c, rs.s.st i = .idle → rs.cache i = some c → rs.s.out i = .app i c
 
 /-- what `rrunNode` does to a hot node -/
-theorem rrunNode_hot {fx d R G H} (ok : SnapOK fx d R G) (rs : RS) (i : Nat)
-    (h : RCore fx d R G rs.s (some i)) (hb : RBook fx d G H rs) :
+theorem rrunNode_hot {fx d R G H T} (ok : SnapOK fx d R G) (rs : RS) (i : Nat)
+    (h : RCore fx d R G rs.s (some i)) (hb : RBook fx d G H T rs) :
     rrunNode fx d rs i =
       if rs.cache i = some (fetchArgs d rs.s.out i) ∧ fx.dirty i = false then
         ({ rs with s := rfinish fx d (submit d rs.s i) i }, .ok)
@@ -534,23 +536,24 @@ theorem rrunNode_hot {fx d R G H} (ok : SnapOK fx d R G) (rs : RS) (i : Nat)
     · rw [if_pos hex, if_pos hex]; simp [submit]
     · rw [if_neg hex, if_neg hex]; simp [rfinish, submit, updF_updF, erase_append_self _ _ hnr]
 
-theorem rbook_congr {fx d G H} (rs rs' : RS) (hb : RBook fx d G H rs) (hst : rs'.s.st = rs.s.st)
+theorem rbook_congr {fx d G H T} (rs rs' : RS) (hb : RBook fx d G H T rs) (hst : rs'.s.st = rs.s.st)
     (hout : rs'.s.out = rs.s.out) (hc : rs'.cache = rs.cache) (hf : rs'.fcalls = rs.fcalls) :
-    RBook fx d G H rs' := by
-  refine ⟨?_, ?_, ?_, ?_, ?_, ?_, ?_, ?_⟩
+    RBook fx d G H T rs' := by
+  refine ⟨?_, ?_, ?_, ?_, ?_, ?_, ?_, ?_, ?_⟩
   · intro i; rw [hf, hst]; exact hb.fc0 i
   · intro i; rw [hf]; exact hb.fcG i
   · intro i; rw [hf, hst]; exact hb.fcN i
   · intro i; rw [hf, hst]; exact hb.fcD i
+  · intro i; rw [hf, hst]; exact hb.fcT i
   · intro i; rw [hf]; exact hb.fcLe i
   · intro i; rw [hc, hst, hout]; exact hb.cacheG i
   · intro i; rw [hc, hst]; exact hb.cacheN i
   · intro i c; rw [hc, hst, hout]; exact hb.cacheU i c
 
 /-- finishing `k` (a completion callback, or the tail of a local run / a cache hit) keeps the books -/
-theorem rfinish_rbook {fx d R G H} (ok : SnapOK fx d R G) (wf : WF d) (rs : RS) (k : Nat)
-    (h : RCore fx d R G rs.s none) (hb : RBook fx d G H rs) (hk : rs.s.st k = .out) :
-    RBook fx d G H { rs with s := rfinish fx d rs.s k } := by
+theorem rfinish_rbook {fx d R G H T} (ok : SnapOK fx d R G) (wf : WF d) (rs : RS) (k : Nat)
+    (h : RCore fx d R G rs.s none) (hb : RBook fx d G H T rs) (hk : rs.s.st k = .out) :
+    RBook fx d G H T { rs with s := rfinish fx d rs.s k } := by
   have hcongr := finish_congr ok wf h k hk
   have hidle : ∀ i, (rfinish fx d rs.s k).st i = .idle → i ≠ k ∧ rs.s.st i = .idle := by
     intro i hi
@@ -561,14 +564,15 @@ theorem rfinish_rbook {fx d R G H} (ok : SnapOK fx d R G) (wf : WF d) (rs : RS) 
     by_cases hik : i = k
     · subst hik; simp [hk]
     · simpa [rfinish, updF, hik] using hi
-  refine ⟨?_, ?_, ?_, ?_, ?_, ?_, ?_, ?_⟩
+  refine ⟨?_, ?_, ?_, ?_, ?_, ?_, ?_, ?_, ?_⟩
   · intro i hi; exact hb.fc0 i (hidle i hi).2
-  · intro i hG; exact hb.fcG i hG
+  · intro i hG hT; exact hb.fcG i hG hT
   · intro i hH hi; exact hb.fcN i hH (hbusy i hi)
   · intro i hD hi; exact hb.fcD i hD (hbusy i hi)
+  · intro i hT hi; exact hb.fcT i hT (hbusy i hi)
   · intro i; exact hb.fcLe i
-  · intro i hi hG
-    have := hb.cacheG i (hidle i hi).2 hG
+  · intro i hi hG hT
+    have := hb.cacheG i (hidle i hi).2 hG hT
     simp only [rfinish]
     rw [hcongr i (Or.inr hG)]; exact this
   · intro i hi hH; exact hb.cacheN i (hidle i hi).2 hH
@@ -578,10 +582,10 @@ theorem rfinish_rbook {fx d R G H} (ok : SnapOK fx d R G) (wf : WF d) (rs : RS) 
     simpa [rfinish, updF, hik] using this
 
 /-- running a hot node re-establishes both invariants and never raises -/
-theorem rrunNode_core {fx d R G H} (ok : SnapOK fx d R G) (wf : WF d) (rs : RS) (i : Nat)
-    (h : RCore fx d R G rs.s (some i)) (hb : RBook fx d G H rs) :
+theorem rrunNode_core {fx d R G H T} (ok : SnapOK fx d R G) (wf : WF d) (rs : RS) (i : Nat)
+    (h : RCore fx d R G rs.s (some i)) (hb : RBook fx d G H T rs) :
     (rrunNode fx d rs i).2 = .ok ∧ RCore fx d R G (rrunNode fx d rs i).1.s none ∧
-    RBook fx d G H (rrunNode fx d rs i).1 ∧
+    RBook fx d G H T (rrunNode fx d rs i).1 ∧
     ((rrunNode fx d rs i).1.s.st i ≠ .idle) ∧ (∀ x, x ≠ i → (rrunNode fx d rs i).1.s.st x = rs.s.st x) ∧
     (rrunNode fx d rs i).1.s.phase = rs.s.phase := by
   have hidle := h.hotIdle i rfl
@@ -592,23 +596,24 @@ theorem rrunNode_core {fx d R G H} (ok : SnapOK fx d R G) (wf : WF d) (rs : RS) 
   -- the books after the node has left `idle`, with the cache / call counter possibly touched at `i`
   have hbsub : ∀ (c : Nat → Option (List Val)) (f : Nat → Nat),
       (∀ x, x ≠ i → c x = rs.cache x) → (∀ x, x ≠ i → f x = rs.fcalls x) →
-      (f i ≤ 1) → (G i = true → f i = 0) → (H i = false → f i = 1) → (fx.dirty i = true → f i = 1) →
-      RBook fx d G H { s := submit d rs.s i, cache := c, fcalls := f } := by
-    intro c f hc hf hle hfG hfN hfD
+      (f i ≤ 1) → (G i = true → T i = false → f i = 0) → (H i = false → f i = 1) →
+      (fx.dirty i = true → f i = 1) → (T i = true → f i = 1) →
+      RBook fx d G H T { s := submit d rs.s i, cache := c, fcalls := f } := by
+    intro c f hc hf hle hfG hfN hfD hfT
     have hidle' : ∀ x, (submit d rs.s i).st x = .idle → x ≠ i ∧ rs.s.st x = .idle := by
       intro x hx
       have hxi : x ≠ i := by intro e; subst e; simp [submit, updF] at hx
       exact ⟨hxi, by simpa [submit, updF, hxi] using hx⟩
-    refine ⟨?_, ?_, ?_, ?_, ?_, ?_, ?_, ?_⟩
+    refine ⟨?_, ?_, ?_, ?_, ?_, ?_, ?_, ?_, ?_⟩
     · intro x hx
       obtain ⟨hxi, hx'⟩ := hidle' x hx
       show f x = 0
       rw [hf x hxi]; exact hb.fc0 x hx'
-    · intro x hG
+    · intro x hG hT
       show f x = 0
       by_cases hxi : x = i
-      · subst hxi; exact hfG hG
-      · rw [hf x hxi]; exact hb.fcG x hG
+      · subst hxi; exact hfG hG hT
+      · rw [hf x hxi]; exact hb.fcG x hG hT
     · intro x hH hx
       show f x = 1
       by_cases hxi : x = i
@@ -619,16 +624,21 @@ theorem rrunNode_core {fx d R G H} (ok : SnapOK fx d R G) (wf : WF d) (rs : RS) 
       by_cases hxi : x = i
       · subst hxi; exact hfD hD
       · rw [hf x hxi]; exact hb.fcD x hD (by simpa [submit, updF, hxi] using hx)
+    · intro x hT hx
+      show f x = 1
+      by_cases hxi : x = i
+      · subst hxi; exact hfT hT
+      · rw [hf x hxi]; exact hb.fcT x hT (by simpa [submit, updF, hxi] using hx)
     · intro x
       show f x ≤ 1
       by_cases hxi : x = i
       · subst hxi; exact hle
       · rw [hf x hxi]; exact hb.fcLe x
-    · intro x hx hG
+    · intro x hx hG hT
       obtain ⟨hxi, hx'⟩ := hidle' x hx
       show c x = _
       rw [hc x hxi]
-      simpa [submit] using hb.cacheG x hx' hG
+      simpa [submit] using hb.cacheG x hx' hG hT
     · intro x hx hH
       obtain ⟨hxi, hx'⟩ := hidle' x hx
       show c x = none
@@ -643,22 +653,28 @@ theorem rrunNode_core {fx d R G H} (ok : SnapOK fx d R G) (wf : WF d) (rs : RS) 
     have hH : H i = true := by
       cases hh : H i with
       | true => rfl
-      | false => have := hb.cacheN i hidle hh; rw [this] at hhit; simp at hhit
-    have hb1 : RBook fx d G H { s := submit d rs.s i, cache := rs.cache, fcalls := rs.fcalls } :=
-      hbsub rs.cache rs.fcalls (fun _ _ => rfl) (fun _ _ => rfl) (by omega) (fun _ => hfc0)
+      | false => have := hb.cacheN i hidle (Or.inl hh); rw [this] at hhit; simp at hhit
+    have hT : T i = false := by
+      cases hh : T i with
+      | false => rfl
+      | true => have := hb.cacheN i hidle (Or.inr hh); rw [this] at hhit; simp at hhit
+    have hb1 : RBook fx d G H T { s := submit d rs.s i, cache := rs.cache, fcalls := rs.fcalls } :=
+      hbsub rs.cache rs.fcalls (fun _ _ => rfl) (fun _ _ => rfl) (by omega) (fun _ _ => hfc0)
         (fun hn => by rw [hH] at hn; cases hn) (fun hd => by rw [hhit.2] at hd; cases hd)
+        (fun ht => by rw [hT] at ht; cases ht)
     have hb2 := rfinish_rbook ok wf { s := submit d rs.s i, cache := rs.cache, fcalls := rs.fcalls } i hsub hb1 hout
     rw [key]
     refine ⟨rfl, hfin, hb2, by simp [rfinish], ?_, by simp [rfinish, submit]⟩
     intro x hx; simp [rfinish, submit, updF, hx]
   · rw [if_neg hhit] at key
-    have hnotG : G i = true → False := by
-      intro hG
-      exact hhit ⟨hb.cacheG i hidle hG, ok.Gclean i hG⟩
-    have hb1 : RBook fx d G H { s := submit d rs.s i, cache := updF rs.cache i (some (fetchArgs d rs.s.out i)),
+    have hnotG : G i = true → T i = false → False := by
+      intro hG hT
+      exact hhit ⟨hb.cacheG i hidle hG hT, ok.Gclean i hG⟩
+    have hb1 : RBook fx d G H T { s := submit d rs.s i, cache := updF rs.cache i (some (fetchArgs d rs.s.out i)),
                                 fcalls := updF rs.fcalls i (rs.fcalls i + 1) } :=
       hbsub _ _ (fun x hx => by simp [updF, hx]) (fun x hx => by simp [updF, hx]) (by simp [hfc0])
-        (fun hG => (hnotG hG).elim) (fun _ => by simp [hfc0]) (fun _ => by simp [hfc0])
+        (fun hG hT => (hnotG hG hT).elim) (fun _ => by simp [hfc0]) (fun _ => by simp [hfc0])
+        (fun _ => by simp [hfc0])
     by_cases hex : d.onExec i = true
     · rw [if_pos hex] at key
       rw [key]
@@ -672,14 +688,14 @@ theorem rrunNode_core {fx d R G H} (ok : SnapOK fx d R G) (wf : WF d) (rs : RS) 
 
 /-! ### every action of the resumed run preserves the invariant -/
 
-structure RInv (fx : Fix) (d : Dag) (R : Nat → List Nat) (G H : Nat → Bool) (rs : RS) : Prop where
+structure RInv (fx : Fix) (d : Dag) (R : Nat → List Nat) (G H T : Nat → Bool) (rs : RS) : Prop where
   core : RCore fx d R G rs.s none
   phase : PhaseInv d rs.s
-  book : RBook fx d G H rs
+  book : RBook fx d G H T rs
   notAborted : rs.s.phase ≠ .aborted
 
-theorem rstep_inv {fx d R G H} (cfg : Cfg) (ok : SnapOK fx d R G) (wf : WF d) (rs rs' : RS) (a : Act)
-    (h : RInv fx d R G H rs) (hs : rstep fx cfg d rs a = some rs') : RInv fx d R G H rs' := by
+theorem rstep_inv {fx d R G H T} (cfg : Cfg) (ok : SnapOK fx d R G) (wf : WF d) (rs rs' : RS) (a : Act)
+    (h : RInv fx d R G H T rs) (hs : rstep fx cfg d rs a = some rs') : RInv fx d R G H T rs' := by
   cases a with
   | start =>
     simp only [rstep] at hs
@@ -721,7 +737,7 @@ theorem rstep_inv {fx d R G H} (cfg : Cfg) (ok : SnapOK fx d R G) (wf : WF d) (r
       split at hs
       · rename_i hall
         have hhot := pop_fire_rcore ok rs.s j i q h.core hq hall
-        have hb0 : RBook fx d G H { rs with s := { rs.s with queue := q, received := updF rs.s.received i [] } } :=
+        have hb0 : RBook fx d G H T { rs with s := { rs.s with queue := q, received := updF rs.s.received i [] } } :=
           rbook_congr rs _ h.book rfl rfl rfl rfl
         obtain ⟨hok, hc, hbk, hni, hoth, hphase⟩ :=
           rrunNode_core ok wf { rs with s := { rs.s with queue := q, received := updF rs.s.received i [] } } i hhot hb0
@@ -787,8 +803,8 @@ theorem rstep_inv {fx d R G H} (cfg : Cfg) (ok : SnapOK fx d R G) (wf : WF d) (r
       cases this
     · simp at hs
 
-theorem rrunActs_inv {fx d R G H} (cfg : Cfg) (ok : SnapOK fx d R G) (wf : WF d) (acts : List Act) (rs rs' : RS)
-    (h : RInv fx d R G H rs) (hr : rrunActs fx cfg d rs acts = some rs') : RInv fx d R G H rs' := by
+theorem rrunActs_inv {fx d R G H T} (cfg : Cfg) (ok : SnapOK fx d R G) (wf : WF d) (acts : List Act) (rs rs' : RS)
+    (h : RInv fx d R G H T rs) (hr : rrunActs fx cfg d rs acts = some rs') : RInv fx d R G H T rs' := by
   induction acts generalizing rs with
   | nil => simp [rrunActs] at hr; subst hr; exact h
   | cons a as ih =>
@@ -800,7 +816,7 @@ theorem rrunActs_inv {fx d R G H} (cfg : Cfg) (ok : SnapOK fx d R G) (wf : WF d)
 
 /-! ### consequences at the end of the resumed run -/
 
-theorem rexit_all_done {fx d R G H} (wf : WF d) (rs : RS) (h : RInv fx d R G H rs)
+theorem rexit_all_done {fx d R G H T} (wf : WF d) (rs : RS) (h : RInv fx d R G H T rs)
     (rank : Nat → Nat) (hrank : ∀ i j, j ∈ d.deps i → rank j < rank i)
     (hex : rs.s.phase = .exited) : ∀ i, d.member i → rs.s.st i = .done := by
   obtain ⟨hq, hrun, hroots⟩ := h.phase.exited hex
@@ -837,7 +853,7 @@ theorem rexit_all_done {fx d R G H} (wf : WF d) (rs : RS) (h : RInv fx d R G H r
   exact key (rank i + 1) i (by omega)
 
 /-- the value equation at every node that has run in the resumed run or had completed before the cut -/
-theorem rgood_value {fx d R G H} (ok : SnapOK fx d R G) (rs : RS) (h : RInv fx d R G H rs) (i : Nat)
+theorem rgood_value {fx d R G H T} (ok : SnapOK fx d R G) (rs : RS) (h : RInv fx d R G H T rs) (i : Nat)
     (hi : rs.s.st i = .done ∨ G i = true) : rs.s.out i = .app (fx.sym i) (headArgs d rs.s.out i) := by
   rw [h.core.val i hi]
   congr 1
@@ -849,7 +865,7 @@ theorem rgood_value {fx d R G H} (ok : SnapOK fx d R G) (rs : RS) (h : RInv fx d
   · exact Or.inr (ok.Gclosed i c hi hc)
 
 /-- some action is enabled until the resumed run has ended -/
-theorem rprogress {fx d R G H} (cfg : Cfg) (rs : RS) (h : RInv fx d R G H rs) (r : List Nat)
+theorem rprogress {fx d R G H T} (cfg : Cfg) (rs : RS) (h : RInv fx d R G H T rs) (r : List Nat)
     (hph : rs.s.phase = .run r) : ∃ a rs', rstep fx cfg d rs a = some rs' := by
   cases r with
   | cons i rest =>
@@ -960,23 +976,25 @@ theorem snapOK_of_cut {rc fx d s A} (h : Core d s none) (hA : Affected fx d A) (
     | false => rfl
     | true => have := hA.dirty i hd; rw [hna] at this; cases this
 
-theorem resume_inv {cfg d s} (rc : RCfg) (fx : Fix) (A : Nat → Bool) (wf : WF d) (h : Inv cfg d s)
+theorem resume_inv {cfg d s} (rc : RCfg) (fx : Fix) (A T : Nat → Bool) (wf : WF d) (h : Inv cfg d s)
     (ha : ArgsInv s) (hc : CacheOK rc s) (hA : Affected fx d A) (ht : TriggersOK rc fx)
     (hA0 : (∀ i, fx.dirty i = false) → ∀ i, A i = false) :
-    RInv fx d (startReceived rc s) (kept s A) (doneAt s) (resumeFrom rc d s) := by
+    RInv fx d (startReceived rc s) (kept s A) (doneAt s) T (resumeFromC rc T d s) := by
   have hok := snapOK_of_cut (rc := rc) h.core hA ht hA0
-  have hrec : (resumeFrom rc d s).s.received = startReceived rc s := by
-    simp only [resumeFrom, resumeInit, Snap.clearFlags, snapshot, startReceived]
-  have hst : ∀ i, (resumeFrom rc d s).s.st i = .idle := by
-    intro i; simp [resumeFrom, resumeInit, Snap.clearFlags]
-  have hq : (resumeFrom rc d s).s.queue = [] := by simp [resumeFrom, resumeInit, init]
-  have hout : (resumeFrom rc d s).s.out = s.out := by simp [resumeFrom, resumeInit, Snap.clearFlags, snapshot]
+  have hrec : (resumeFromC rc T d s).s.received = startReceived rc s := by
+    simp only [resumeFromC, resumeInit, Snap.clearFlags, snapshot, startReceived]
+  have hst : ∀ i, (resumeFromC rc T d s).s.st i = .idle := by
+    intro i; simp [resumeFromC, resumeInit, Snap.clearFlags]
+  have hq : (resumeFromC rc T d s).s.queue = [] := by simp [resumeFromC, resumeInit, init]
+  have hout : (resumeFromC rc T d s).s.out = s.out := by simp [resumeFromC, resumeInit, Snap.clearFlags, snapshot]
   have hkept : ∀ i, kept s A i = true → s.st i = .done ∧ A i = false := by
     intro i hi
     simpa [kept, doneAt] using hi
-  have hcache : ∀ i c, (resumeFrom rc d s).cache i = some c → s.st i = .done ∧ c = s.args i := by
+  have hcache : ∀ i c, (resumeFromC rc T d s).cache i = some c → s.st i = .done ∧ c = s.args i := by
     intro i c hc'
-    simp only [resumeFrom, resumeInit, Snap.clearFlags, snapshot] at hc'
+    simp only [resumeFromC, resumeInit, Snap.clearFlags, snapshot] at hc'
+    split at hc'
+    · cases hc'
     cases hsti : s.st i with
     | done => simp [hsti] at hc'; exact ⟨rfl, hc'.symm⟩
     | idle => simp [hsti] at hc'
@@ -988,8 +1006,8 @@ theorem resume_inv {cfg d s} (rc : RCfg) (fx : Fix) (A : Nat → Bool) (wf : WF 
       rcases hc.2 with h1 | h1
       · simp [hsti, h1] at hc'
       · exact absurd hsti (h1 i)
-  refine ⟨⟨?_, ?_, ?_, ?_, ?_, ?_, ?_, ?_, ?_, ?_, ?_, ?_, ?_⟩, ⟨?_, ?_⟩, ⟨?_, ?_, ?_, ?_, ?_, ?_, ?_, ?_⟩, ?_⟩
-  · intro i; simp [resumeFrom, resumeInit, Snap.clearFlags, init]
+  refine ⟨⟨?_, ?_, ?_, ?_, ?_, ?_, ?_, ?_, ?_, ?_, ?_, ?_, ?_⟩, ⟨?_, ?_⟩, ⟨?_, ?_, ?_, ?_, ?_, ?_, ?_, ?_, ?_⟩, ?_⟩
+  · intro i; simp [resumeFromC, resumeInit, Snap.clearFlags, init]
   · intro i j hi; exact absurd (hst i) hi
   · intro i j hj
     have : j ∉ startReceived rc s i := fun hm => hj (hok.Rdeps i j hm)
@@ -1003,8 +1021,8 @@ theorem resume_inv {cfg d s} (rc : RCfg) (fx : Fix) (A : Nat → Bool) (wf : WF 
   · intro i _ _ hne
     rw [hrec]; exact hok.Rmiss i hne
   · intro i hi; cases hi
-  · intro i; simp [resumeFrom, resumeInit, Snap.clearFlags, init]
-  · simp [resumeFrom, resumeInit, init]
+  · intro i; simp [resumeFromC, resumeInit, Snap.clearFlags, init]
+  · simp [resumeFromC, resumeInit, init]
   · intro i hi
     have hk : kept s A i = true := by
       rcases hi with hi | hi
@@ -1015,37 +1033,40 @@ theorem resume_inv {cfg d s} (rc : RCfg) (fx : Fix) (A : Nat → Bool) (wf : WF 
     exact h.core.valDone i hd
   · intro i hi; rw [hst i] at hi; cases hi
   · intro i; rw [hst i]; simp
-  · simp [resumeFrom, resumeInit, init]
+  · simp [resumeFromC, resumeInit, init]
   · intro r hr
     have : r = d.starters := by
-      simpa [resumeFrom, resumeInit, init] using hr.symm
+      simpa [resumeFromC, resumeInit, init] using hr.symm
     subst this
     refine ⟨wf.startNodup, ?_, ?_⟩
     · intro i hi; exact ⟨hst i, hi⟩
     · intro i hi _; exact hi
-  · intro he; simp [resumeFrom, resumeInit, init] at he
-  · intro i _; simp [resumeFrom, resumeInit]
-  · intro i _; simp [resumeFrom, resumeInit]
+  · intro he; simp [resumeFromC, resumeInit, init] at he
+  · intro i _; simp [resumeFromC, resumeInit]
+  · intro i _ _; simp [resumeFromC, resumeInit]
   · intro i _ hi; exact absurd (hst i) hi
   · intro i _ hi; exact absurd (hst i) hi
-  · intro i; simp [resumeFrom, resumeInit]
-  · intro i _ hG
+  · intro i _ hi; exact absurd (hst i) hi
+  · intro i; simp [resumeFromC, resumeInit]
+  · intro i _ hG hT
     obtain ⟨hd, _⟩ := hkept i hG
     have h1 := ha i hd
     have h2 := h.core.valDone i hd
     have : s.args i = fetchArgs d s.out i := by
       rw [h1] at h2; injection h2
     rw [hout]
-    simp [resumeFrom, resumeInit, Snap.clearFlags, snapshot, hd, this]
+    simp [resumeFromC, resumeInit, Snap.clearFlags, snapshot, hd, this, hT]
   · intro i _ hH
-    have hd : s.st i ≠ .done := by simpa [doneAt] using hH
-    cases hci : (resumeFrom rc d s).cache i with
-    | none => rfl
-    | some c => exact absurd (hcache i c hci).1 hd
+    rcases hH with hH | hT
+    · have hd : s.st i ≠ .done := by simpa [doneAt] using hH
+      cases hci : (resumeFromC rc T d s).cache i with
+      | none => rfl
+      | some c => exact absurd (hcache i c hci).1 hd
+    · simp [resumeFromC, resumeInit, hT]
   · intro i c _ hci
     obtain ⟨hd, hce⟩ := hcache i c hci
     rw [hout, hce]; exact ha i hd
-  · simp [resumeFrom, resumeInit, init]
+  · simp [resumeFromC, resumeInit, init]
 
 /-! ### who writes the recovery file -/
 
